@@ -13,8 +13,12 @@ def run(ctx):
     findings = load_findings('C02')
     translate(ctx, ['key'])
     lean_props(ctx)
+    key_tie(ctx, findings, *((3000, 3000) if ctx.quick() else (100000, 100000)))
+
+def key_tie(ctx, findings, n, npairs, own_property=True, relevant=None):
+    """byte-exact key correspondence + metamorphic monitor; also used by C01 / C03 / C12, which rest on the key theorems
+    (there the aliasing findings of C02 are not repeated: only unlisted failures count)"""
     if not cargo_harness(ctx, ['h_key']): return
-    n, npairs = (3000, 3000) if ctx.quick() else (100000, 100000)
     w = ctx.work; scratch = os.path.join(w, 'scratch'); shutil.rmtree(scratch, ignore_errors=True)
     e = env_offline(); e['VERIF_SEED'] = str(ctx.seed)
     rc, out, dt = sh([harness_bin('h_key'), 'gen', str(n), str(npairs), f'{w}/req.txt', f'{w}/keys.txt', f'{w}/summary.json', scratch], env=e, timeout=7200)
@@ -40,7 +44,10 @@ def run(ctx):
     ctx.samples += s['samples']
     ctx.cov.update(requests=s['requests'], pairs=s['pairs'], disabled_keys=s['none_keys'], pair_families=s['families'])
     def to_fail(f): return dict(f)
-    monitor_failures(ctx, s['monitor_failures'], findings, 'h_key metamorphic monitor', to_replay)
+    fails = s['monitor_failures']
+    if not own_property:
+        c02 = load_findings('C02'); fails = [f for f in fails if match_finding(c02, f) is None and (relevant is None or relevant(f))]
+    monitor_failures(ctx, fails, findings, 'h_key metamorphic monitor', to_replay)
     ctx.assumptions += ['BLAKE3 is a parameter H of the theorems; collision-freedom is an explicit disjunct, not an axiom', 'Unix byte paths (encode_path is the identity)']
 
 def replay(ctx, path):
